@@ -48,6 +48,7 @@ class Gen:
         used = set()
         ports = []
         flat = rng.random() < 0.5          # a table without '#': candidates for the perfect hash
+        bare_enum = (not flat) and rng.random() < 0.25      # one port whose name BEGINS with the enumeration ("#3", "#3/")
         for _ in range(n):
             nm = rand_name(rng, used)
             if nm is None:
@@ -55,8 +56,11 @@ class Gen:
             self.next_id += 1
             pid = self.next_id
             segs = [lit(nm)]
+            if bare_enum:
+                bare_enum = False
+                segs = [dict(k="enum", n=rng.choice([2, 3, 12]))]
             is_sub = allow_sub and depth > 1 and rng.random() < 0.2
-            if not flat and rng.random() < 0.35:
+            if not flat and segs[0]["k"] == "lit" and rng.random() < 0.35:
                 segs.append(dict(k="enum", n=rng.choice([1, 2, 3, 12])))
             types = dict(has=False, alts=[])
             if is_sub:
